@@ -245,6 +245,23 @@ def probe_verdict(s, recs, serial_recs):
             not_blocked = dict(signature="probe-lock-scope", divergence=True, name=s["name"], config=s["cfg"], events=s["events"], no_shrink=True,
                                what="%s: '%s' completed (%s) while the other thread was stopped inside the action holding its lock - the action is not atomic with respect to it, as the model assumes"
                                     % (s.get("note", s["name"])[:200], recs[eb]["ev"], recs[eb]["ret"]))
+    if s.get("alive_only"):
+        # probes judged by C17 alone: the overlapped execution may end differently from both serial orders (the code's actions are
+        # smaller than the model's here); what is demanded is that no thread died, the probe ran to its end, every acknowledgement
+        # is resolved and the last write was accepted and reads back
+        for i, r in enumerate(recs):
+            dead = {k: v for k, v in r["roles"].items() if isinstance(v, str) and "Dead" in v}
+            if dead:
+                return dict(signature="background-thread-died", name=s["name"], config=s["cfg"], events=s["events"][: i + 1], no_shrink=True,
+                            what="%s: after '%s' %s" % (s.get("note", s["name"])[:200], r["ev"], dead))
+        if len(recs) < len(s["events"]) or any(r.get("stale_snap") for r in recs[-n:]):
+            return dict(signature="probe-did-not-complete", what="the probe %s did not run to its end (a thread stayed blocked)" % s["name"], name=s["name"],
+                        config=s["cfg"], events=s["events"], no_shrink=True, records=[(r["ev"], r["ret"]) for r in recs][-12:])
+        last = recs[-1]
+        if any(a == 0 for a in last["acks"]) or last["acks"][-1] != 1:
+            return dict(signature="writes-no-longer-complete", name=s["name"], config=s["cfg"], events=s["events"], no_shrink=True,
+                        what="%s: at the end the acknowledgements are %s (0 = never completed; the last put fits an empty cache and must be accepted)" % (s.get("note", s["name"])[:200], last["acks"]))
+        return None
     def view(r):
         sn = r["snap"]
         ret = r["ret"] if r["ev"].split()[0] == "call" else None
@@ -660,10 +677,10 @@ def run_C12(ctx):
     binary, seed, tier = ctx["binary"], ctx["seed"], ctx["tier"]
     rng = random.Random(seed)
     if tier == "quick":
-        cases = ackcorr.sequential_cases(2, finals=(1, 5)) + ackcorr.concurrent_cases(rng, 400, 3)
-        exhaustive = "every placement of the completer's 3 steps among 1 and 2 sequential polls x 2 wakers x 2 final statuses (exhaustive), plus 400 random overlapping interleavings of 2-3 pollers"
+        cases = ackcorr.sequential_cases(2, finals=(1, 5)) + ackcorr.concurrent_cases(rng, 400, 3) + ackcorr.contended_cases(rng, 120)
+        exhaustive = "every placement of the completer's 3 steps among 1 and 2 sequential polls x 2 wakers x 2 final statuses (exhaustive), plus 400 random overlapping interleavings of 2-3 pollers, plus every placement of a completer that is released into the waker mutex while the poll holds it (1 poller, exhaustive) and 120 random ones with 2-3 pollers"
     else:
-        cases = ackcorr.sequential_cases(3, finals=(1, 2, 4, 5, 6)) + ackcorr.all_two_poller_interleavings() + ackcorr.concurrent_cases(rng, 4000, 3)
+        cases = ackcorr.sequential_cases(3, finals=(1, 2, 4, 5, 6)) + ackcorr.all_two_poller_interleavings() + ackcorr.concurrent_cases(rng, 4000, 3) + ackcorr.contended_cases(rng, 1500)
         exhaustive = "every placement of the completer's 3 steps among 1..3 sequential polls x wakers x 5 final statuses, all 11550 interleavings of the completer with two overlapping pollers (both exhaustive), plus 4000 random overlapping interleavings"
     divs, fails, stats = ackcorr.compare(binary, cases)
     outcomes = stats["outcomes"]
